@@ -24,7 +24,7 @@ var intrinsicSet = map[string]bool{
 	"math.Abs": true, "math.Max": true, "math.Min": true, "math.Pow": true, "math.Sqrt": true,
 	"math.Round": true, "math.Floor": true, "math.Inf": true, "math.IsNaN": true, "math.IsInf": true,
 	"math.Trunc": true, "math.Ceil": true,
-	"time.Sleep": true,
+	"time.Sleep": true, "time.Now": true, "(time.Time).String": true, "(time.Time).Format": true,
 	"(*sync.WaitGroup).Add": true, "(*sync.WaitGroup).Done": true, "(*sync.WaitGroup).Wait": true,
 	"(*sync.Mutex).Lock": true, "(*sync.Mutex).Unlock": true,
 	"(*sync.RWMutex).Lock": true, "(*sync.RWMutex).Unlock": true, "(*sync.RWMutex).RLock": true, "(*sync.RWMutex).RUnlock": true,
@@ -92,6 +92,10 @@ func (ex *Exec) intrinsic(g *G, f *Frame, fn *ssa.Function, args []Value, call *
 		return ex.fround(args[0].(Flt), true), false
 	case "time.Sleep", "runtime.Gosched":
 		return nil, false
+	case "time.Now":
+		return ex.zero(fn.Signature.Results().At(0).Type()), false
+	case "(time.Time).String", "(time.Time).Format":
+		return Str{C: "<time>"}, false
 	case "fmt.Sprintf", "fmt.Sprint":
 		return Str{C: ex.sprintf(args)}, false
 	case "fmt.Errorf":
